@@ -1,26 +1,1140 @@
+//! chess-dst: deterministic simulation with fault injection for the `chess` crate.
+//! Subcommands: selftest | check | worker | replay | trace | replay-raw | audit | run1
+
 mod conv;
 mod engine;
 mod exec;
+mod gen;
+mod json;
+mod meta;
 mod model;
 mod ops;
 mod oracle;
 mod rng;
+mod run;
 mod selftest;
 mod text;
+mod world;
+
+use exec::prop_index;
+use ops::Step;
+use oracle::Violation;
+use run::*;
+use std::collections::{BTreeMap, HashMap, HashSet};
+use std::io::{BufRead, BufReader, Write};
+use std::process::{Command, Stdio};
+use world::End;
+
+const VERIF: &str = "/verif";
+
+fn arg<'a>(args: &'a [String], k: &str) -> Option<&'a str> {
+    args.iter().position(|a| a == k).and_then(|i| args.get(i + 1)).map(|s| s.as_str())
+}
+fn arg_u64(args: &[String], k: &str, d: u64) -> u64 {
+    arg(args, k).and_then(|s| s.parse().ok()).unwrap_or(d)
+}
+
+fn quiet_panics() {
+    std::panic::set_hook(Box::new(|info| {
+        let s = format!("{}", info);
+        if s.contains("HARNESS") {
+            eprintln!("{}", s);
+        }
+    }));
+}
 
 fn main() {
     let args: Vec<String> = std::env::args().collect();
-    if args.get(1).map(|s| s.as_str()) == Some("selftest") {
-        let t = std::time::Instant::now();
-        match selftest::structural().and_then(|_| selftest::run_cases(selftest::QUICK)) {
-            Ok(n) => println!("quick ok {} nodes {:?}", n, t.elapsed()),
-            Err(e) => { eprintln!("SELFTEST FAILED: {}", e); std::process::exit(2) }
+    let cmd = args.get(1).map(|s| s.as_str()).unwrap_or("");
+    let code = match cmd {
+        "selftest" => cmd_selftest(args.get(2).map(|s| s.as_str()) == Some("full")),
+        "worker" => cmd_worker(&args),
+        "check" => cmd_check(&args),
+        "replay" => cmd_replay(&args),
+        "replay-raw" => cmd_replay_raw(&args),
+        "trace" => cmd_trace(&args),
+        "audit" => cmd_audit(&args),
+        "run1" => cmd_run1(&args),
+        _ => {
+            eprintln!("usage: chess-dst selftest|check|worker|replay|trace|audit|run1 ...");
+            2
         }
-        if args.get(2).map(|s| s.as_str()) == Some("full") {
-            match selftest::run_cases(selftest::FULL) {
-                Ok(n) => println!("full ok {} nodes {:?}", n, t.elapsed()),
-                Err(e) => { eprintln!("SELFTEST FAILED: {}", e); std::process::exit(2) }
+    };
+    std::process::exit(code);
+}
+
+fn cmd_selftest(full: bool) -> i32 {
+    let t = std::time::Instant::now();
+    if let Err(e) = selftest::structural().and_then(|_| selftest::run_cases(selftest::QUICK)) {
+        eprintln!("HARNESS ERROR: reference model self-test failed: {}", e);
+        return 2;
+    }
+    if full {
+        // on all cores: one thread per case (this is not simulation code)
+        let hs: Vec<_> = selftest::FULL
+            .iter()
+            .map(|c| std::thread::spawn(move || selftest::run_cases(std::slice::from_ref(c))))
+            .collect();
+        for h in hs {
+            match h.join() {
+                Ok(Ok(_)) => {}
+                Ok(Err(e)) => {
+                    eprintln!("HARNESS ERROR: reference model self-test failed: {}", e);
+                    return 2;
+                }
+                Err(_) => return 2,
             }
         }
     }
+    println!("model self-test ok ({}; {:.2}s)", if full { "full" } else { "quick" }, t.elapsed().as_secs_f64());
+    0
+}
+
+// ------------------------------------------------------------------------------------------ worker
+
+/// Runs indices i in [from, to) with i % stride == offset. Protocol on stdout, one line per event.
+fn cmd_worker(args: &[String]) -> i32 {
+    quiet_panics();
+    let prop = arg_u64(args, "--prop", 10) as usize;
+    let seed = arg_u64(args, "--seed", 1);
+    let fi = arg_u64(args, "--fi", 0) == 1;
+    let from = arg_u64(args, "--from", 0);
+    let to = arg_u64(args, "--to", 0);
+    let stride = arg_u64(args, "--stride", 1);
+    let offset = arg_u64(args, "--offset", 0);
+    let out_dir = arg(args, "--out").unwrap_or("").to_string();
+    let digests_only = arg(args, "--digests").is_some();
+    let stdout = std::io::stdout();
+    let mut o = stdout.lock();
+    let mut counters: BTreeMap<String, u64> = BTreeMap::new();
+    let mut distinct: HashSet<u64> = HashSet::new();
+    let mut keys: HashMap<(u64, u64), (u64, u64)> = HashMap::new(); // key fp -> (hash, run)
+    let mut by_hash: HashMap<u64, ((u64, u64), u64)> = HashMap::new(); // hash -> (key fp, run)
+    let mut digests: HashSet<u64> = HashSet::new();
+    let mut evals = 0u64;
+    let mut runs = 0u64;
+    let mut sim_ms = 0u64;
+    let mut plies = 0u64;
+    let mut sample_done = false;
+    let mut i = from + ((offset + stride - (from % stride)) % stride);
+    while i < to {
+        writeln!(o, "B {}", i).ok();
+        o.flush().ok();
+        let out = run_one(seed, prop, fi, i);
+        runs += 1;
+        evals += out.stats.evals;
+        sim_ms += out.stats.sim_ms;
+        plies += out.stats.plies;
+        digests.insert(out.digest);
+        match &out.end {
+            End::Clean => {}
+            End::Violation(v) => {
+                writeln!(o, "V {} {}\t{}", i, v.sig, v.detail.replace('\n', " ")).ok();
+            }
+            End::Foreign(d) => {
+                *counters.entry("truncated_foreign_divergence".into()).or_insert(0) += 1;
+                writeln!(o, "F {} {}", i, d.replace('\n', " ")).ok();
+            }
+        }
+        if digests_only {
+            writeln!(o, "E {} {:016x}", i, out.digest).ok();
+        }
+        for (k, v) in out.stats.counters.iter() {
+            *counters.entry(k.to_string()).or_insert(0) += v;
+        }
+        for (k, v) in out.stats.dyn_counters.iter() {
+            *counters.entry(k.clone()).or_insert(0) += v;
+        }
+        for d in out.stats.distinct.iter() {
+            distinct.insert(*d);
+        }
+        for (a, b, h) in out.stats.keys.iter() {
+            match keys.get(&(*a, *b)) {
+                None => {
+                    keys.insert((*a, *b), (*h, i));
+                }
+                Some((h0, r0)) => {
+                    if h0 != h {
+                        writeln!(o, "X same_key_two_hashes {:016x}{:016x} {} {} {:016x} {:016x}", a, b, r0, i, h0, h).ok();
+                    }
+                }
+            }
+            match by_hash.get(h) {
+                None => {
+                    by_hash.insert(*h, ((*a, *b), i));
+                }
+                Some((k0, r0)) => {
+                    if *k0 != (*a, *b) {
+                        writeln!(o, "X collision {:016x}{:016x} {} {:016x}{:016x} {} {:016x}", k0.0, k0.1, r0, a, b, i, h).ok();
+                    }
+                }
+            }
+        }
+        if !sample_done && out.script.len() > 3 && offset == 0 {
+            sample_done = true;
+            let lines: Vec<String> = out.script.iter().take(14).map(|s| s.to_line()).collect();
+            writeln!(o, "S {}\t{}\t{}", i, out.cfg, lines.join("\u{1}")).ok();
+        }
+        i += stride;
+    }
+    writeln!(o, "T runs {} evals {} sim_ms {} plies {} digests {}", runs, evals, sim_ms, plies, digests.len()).ok();
+    for (k, v) in counters.iter() {
+        writeln!(o, "C {} {}", k, v).ok();
+    }
+    if !out_dir.is_empty() {
+        let mut d: Vec<u64> = distinct.into_iter().collect();
+        d.sort();
+        let mut buf: Vec<u8> = Vec::with_capacity(d.len() * 8);
+        for x in d {
+            buf.extend_from_slice(&x.to_le_bytes());
+        }
+        std::fs::write(format!("{}/w{}-{}.distinct", out_dir, fi as u8, offset), buf).ok();
+        let mut kv: Vec<(u64, u64, u64, u64)> = keys.into_iter().map(|(k, v)| (k.0, k.1, v.0, v.1)).collect();
+        kv.sort();
+        let mut buf: Vec<u8> = Vec::with_capacity(kv.len() * 32);
+        for (a, b, h, r) in kv {
+            buf.extend_from_slice(&a.to_le_bytes());
+            buf.extend_from_slice(&b.to_le_bytes());
+            buf.extend_from_slice(&h.to_le_bytes());
+            buf.extend_from_slice(&r.to_le_bytes());
+        }
+        std::fs::write(format!("{}/w{}-{}.keys", out_dir, fi as u8, offset), buf).ok();
+        let mut dg: Vec<u64> = digests.into_iter().collect();
+        dg.sort();
+        let mut buf: Vec<u8> = vec![];
+        for x in dg {
+            buf.extend_from_slice(&x.to_le_bytes());
+        }
+        std::fs::write(format!("{}/w{}-{}.digests", out_dir, fi as u8, offset), buf).ok();
+    }
+    writeln!(o, "DONE").ok();
+    0
+}
+
+// ------------------------------------------------------------------------------------------ driver
+
+#[derive(Default)]
+struct Merged {
+    runs: u64,
+    evals: u64,
+    sim_ms: u64,
+    plies: u64,
+    counters: BTreeMap<String, u64>,
+    violations: Vec<(bool, u64, String, String)>, // (fi, idx, sig, detail)
+    foreign: Vec<(bool, u64, String)>,
+    crashes: Vec<(bool, u64)>,
+    cross: Vec<String>,
+    samples: Vec<(u64, String, String)>,
+}
+
+fn exe() -> String {
+    std::env::current_exe().unwrap().to_string_lossy().into_owned()
+}
+
+fn spawn_batch(prop: usize, seed: u64, fi: bool, from: u64, to: u64, jobs: u64, out_dir: &str, m: &mut Merged) -> Result<(), String> {
+    if to <= from {
+        return Ok(());
+    }
+    let mut children = vec![];
+    for w in 0..jobs {
+        let child = Command::new(exe())
+            .args([
+                "worker",
+                "--prop",
+                &prop.to_string(),
+                "--seed",
+                &seed.to_string(),
+                "--fi",
+                if fi { "1" } else { "0" },
+                "--from",
+                &from.to_string(),
+                "--to",
+                &to.to_string(),
+                "--stride",
+                &jobs.to_string(),
+                "--offset",
+                &w.to_string(),
+                "--out",
+                out_dir,
+            ])
+            .stdout(Stdio::piped())
+            .stderr(Stdio::inherit())
+            .spawn()
+            .map_err(|e| format!("cannot spawn worker: {}", e))?;
+        children.push((w, child));
+    }
+    let mut handles = vec![];
+    for (w, mut child) in children {
+        let so = child.stdout.take().unwrap();
+        handles.push(std::thread::spawn(move || {
+            let rd = BufReader::new(so);
+            let mut lines: Vec<String> = vec![];
+            for l in rd.lines() {
+                match l {
+                    Ok(l) => lines.push(l),
+                    Err(_) => break,
+                }
+            }
+            let st = child.wait();
+            (w, lines, st)
+        }));
+    }
+    for h in handles {
+        let (w, lines, st) = h.join().map_err(|_| "reader thread panicked".to_string())?;
+        let mut last_b: Option<u64> = None;
+        let mut done = false;
+        for l in lines.iter() {
+            let (tag, rest) = l.split_at(1.min(l.len()));
+            let rest = rest.trim_start();
+            match tag {
+                "B" => last_b = rest.parse().ok(),
+                "V" => {
+                    let mut it = rest.splitn(2, ' ');
+                    let idx: u64 = it.next().unwrap_or("0").parse().unwrap_or(0);
+                    let r = it.next().unwrap_or("");
+                    let mut jt = r.splitn(2, '\t');
+                    let sig = jt.next().unwrap_or("").to_string();
+                    let det = jt.next().unwrap_or("").to_string();
+                    m.violations.push((fi, idx, sig, det));
+                }
+                "F" => {
+                    let mut it = rest.splitn(2, ' ');
+                    let idx: u64 = it.next().unwrap_or("0").parse().unwrap_or(0);
+                    m.foreign.push((fi, idx, it.next().unwrap_or("").to_string()));
+                }
+                "X" => m.cross.push(format!("{} {}", fi as u8, rest)),
+                "S" => {
+                    let mut it = rest.splitn(3, '\t');
+                    let idx: u64 = it.next().unwrap_or("0").parse().unwrap_or(0);
+                    let cfg = it.next().unwrap_or("").to_string();
+                    let sc = it.next().unwrap_or("").to_string();
+                    m.samples.push((idx, cfg, sc));
+                }
+                "T" => {
+                    let f: Vec<&str> = rest.split(' ').collect();
+                    let g = |k: &str| -> u64 {
+                        f.iter().position(|x| *x == k).and_then(|i| f.get(i + 1)).and_then(|s| s.parse().ok()).unwrap_or(0)
+                    };
+                    m.runs += g("runs");
+                    m.evals += g("evals");
+                    m.sim_ms += g("sim_ms");
+                    m.plies += g("plies");
+                }
+                "C" => {
+                    let mut it = rest.rsplitn(2, ' ');
+                    let v: u64 = it.next().unwrap_or("0").parse().unwrap_or(0);
+                    let k = it.next().unwrap_or("").to_string();
+                    *m.counters.entry(k).or_insert(0) += v;
+                }
+                "D" => {
+                    if l == "DONE" {
+                        done = true;
+                    }
+                }
+                _ => {}
+            }
+        }
+        if !done {
+            // the worker died (abort inside a library call): the run it had begun is the culprit
+            match last_b {
+                Some(idx) => {
+                    m.crashes.push((fi, idx));
+                    // finish the rest of this worker's share in a fresh worker
+                    let next = idx + jobs;
+                    if next < to {
+                        let mut sub = Merged::default();
+                        respawn_share(prop, seed, fi, next, to, jobs, w, out_dir, &mut sub)?;
+                        merge_into(m, sub);
+                    }
+                }
+                None => return Err(format!("worker {} died before starting a run: {:?}", w, st)),
+            }
+        }
+    }
+    Ok(())
+}
+
+fn merge_into(m: &mut Merged, s: Merged) {
+    m.runs += s.runs;
+    m.evals += s.evals;
+    m.sim_ms += s.sim_ms;
+    m.plies += s.plies;
+    for (k, v) in s.counters {
+        *m.counters.entry(k).or_insert(0) += v;
+    }
+    m.violations.extend(s.violations);
+    m.foreign.extend(s.foreign);
+    m.crashes.extend(s.crashes);
+    m.cross.extend(s.cross);
+    m.samples.extend(s.samples);
+}
+
+/// Continue one worker's share after it died: same stride/offset, later start.
+fn respawn_share(prop: usize, seed: u64, fi: bool, from: u64, to: u64, stride: u64, offset: u64, out_dir: &str, m: &mut Merged) -> Result<(), String> {
+    let mut from = from;
+    let mut guard = 0;
+    while from < to {
+        guard += 1;
+        if guard > 200 {
+            return Err("too many worker deaths in one share".into());
+        }
+        let out = Command::new(exe())
+            .args([
+                "worker", "--prop", &prop.to_string(), "--seed", &seed.to_string(), "--fi", if fi { "1" } else { "0" },
+                "--from", &from.to_string(), "--to", &to.to_string(), "--stride", &stride.to_string(), "--offset",
+                &offset.to_string(), "--out", &format!("{}/re{}-{}", out_dir, offset, from),
+            ])
+            .stderr(Stdio::inherit())
+            .output()
+            .map_err(|e| format!("cannot spawn worker: {}", e))?;
+        std::fs::create_dir_all(format!("{}/re{}-{}", out_dir, offset, from)).ok();
+        let text = String::from_utf8_lossy(&out.stdout).into_owned();
+        let mut last_b = None;
+        let mut done = false;
+        for l in text.lines() {
+            if let Some(r) = l.strip_prefix("B ") {
+                last_b = r.parse::<u64>().ok();
+            } else if let Some(r) = l.strip_prefix("V ") {
+                let mut it = r.splitn(2, ' ');
+                let idx: u64 = it.next().unwrap_or("0").parse().unwrap_or(0);
+                let r2 = it.next().unwrap_or("");
+                let mut jt = r2.splitn(2, '\t');
+                m.violations.push((fi, idx, jt.next().unwrap_or("").to_string(), jt.next().unwrap_or("").to_string()));
+            } else if let Some(r) = l.strip_prefix("T ") {
+                let f: Vec<&str> = r.split(' ').collect();
+                let g = |k: &str| -> u64 {
+                    f.iter().position(|x| *x == k).and_then(|i| f.get(i + 1)).and_then(|s| s.parse().ok()).unwrap_or(0)
+                };
+                m.runs += g("runs");
+                m.evals += g("evals");
+                m.sim_ms += g("sim_ms");
+                m.plies += g("plies");
+            } else if let Some(r) = l.strip_prefix("C ") {
+                let mut it = r.rsplitn(2, ' ');
+                let v: u64 = it.next().unwrap_or("0").parse().unwrap_or(0);
+                *m.counters.entry(it.next().unwrap_or("").to_string()).or_insert(0) += v;
+            } else if l == "DONE" {
+                done = true;
+            }
+        }
+        if done {
+            return Ok(());
+        }
+        match last_b {
+            Some(idx) => {
+                m.crashes.push((fi, idx));
+                from = idx + stride;
+            }
+            None => return Err("respawned worker died before starting a run".into()),
+        }
+    }
+    Ok(())
+}
+
+fn sig_file_name(prop: &str, sig: &str) -> String {
+    let safe: String = sig.chars().map(|c| if c.is_ascii_alphanumeric() || c == '-' { c } else { '_' }).collect();
+    let mut s = safe;
+    s.truncate(100);
+    format!("{}/replays/{}.json", VERIF, if s.starts_with(prop) { s } else { format!("{}_{}", prop, s) })
+}
+
+/// Replay a file in a FRESH process; Ok(signature) if it printed a VIOLATION line.
+fn fresh_replay(path: &str) -> Result<Option<String>, String> {
+    let out = Command::new(exe()).args(["replay", "--file", path, "--print-sig"]).output().map_err(|e| e.to_string())?;
+    let text = String::from_utf8_lossy(&out.stdout).into_owned();
+    for l in text.lines() {
+        if let Some(s) = l.strip_prefix("SIG ") {
+            return Ok(Some(s.to_string()));
+        }
+    }
+    if !out.status.success() && out.status.code().is_none() {
+        return Ok(Some("abort".into()));
+    }
+    Ok(None)
+}
+
+fn cmd_check(args: &[String]) -> i32 {
+    let t0 = std::time::Instant::now();
+    let pid_s = arg(args, "--prop").unwrap_or("C10").to_string();
+    let prop = prop_index(&pid_s);
+    let tier = arg(args, "--tier").map(|s| s.to_string()).or_else(|| std::env::var("VERIF_TIER").ok()).unwrap_or_else(|| "quick".into());
+    let tier = if tier == "thorough" { "thorough" } else { "quick" };
+    let seed: u64 = arg(args, "--seed")
+        .map(|s| s.to_string())
+        .or_else(|| std::env::var("VERIF_SEED").ok())
+        .and_then(|s| s.parse().ok())
+        .unwrap_or(1);
+    let jobs: u64 = arg(args, "--jobs")
+        .map(|s| s.to_string())
+        .or_else(|| std::env::var("VERIF_JOBS").ok())
+        .and_then(|s| s.parse().ok())
+        .unwrap_or(16)
+        .max(1);
+    let pm = match meta::meta(prop) {
+        Some(m) => m,
+        None => {
+            eprintln!("HARNESS ERROR: property {} is not claimed (not applicable or unknown)", pid_s);
+            return 2;
+        }
+    };
+    println!("chess-dst check property={} tier={} VERIF_SEED={} jobs={}", pid_s, tier, seed, jobs);
+    // 1. reference-model self-test
+    if cmd_selftest(false) != 0 {
+        return 2;
+    }
+    // 2. determinism audit: 64 run indices, twice, in different processes at different worker counts
+    let audit_runs = 64u64;
+    match determinism_audit(prop, seed, audit_runs, 1, 4) {
+        Ok(true) => println!("determinism audit ok ({} runs x 2, 1 vs 4 workers)", audit_runs),
+        Ok(false) => {
+            eprintln!("HARNESS ERROR: determinism audit failed: event-log digests differ between two executions");
+            return 2;
+        }
+        Err(e) => {
+            eprintln!("HARNESS ERROR: determinism audit could not run: {}", e);
+            return 2;
+        }
+    }
+    // 3. the batches
+    let (ff, fi) = if tier == "thorough" { pm.thorough } else { pm.quick };
+    let scale: f64 = std::env::var("VERIF_SCALE").ok().and_then(|s| s.parse().ok()).unwrap_or(1.0);
+    let (ff, fi) = ((ff as f64 * scale) as u64, (fi as f64 * scale) as u64);
+    let out_dir = format!("{}/scratch/{}-{}-{}", VERIF, pid_s, tier, std::process::id());
+    let _ = std::fs::remove_dir_all(&out_dir);
+    if std::fs::create_dir_all(&out_dir).is_err() {
+        eprintln!("HARNESS ERROR: cannot create {}", out_dir);
+        return 2;
+    }
+    let mut m = Merged::default();
+    for (is_fi, n) in [(false, ff), (true, fi)] {
+        if let Err(e) = spawn_batch(prop, seed, is_fi, 0, n, jobs, &out_dir, &mut m) {
+            eprintln!("HARNESS ERROR: {}", e);
+            return 2;
+        }
+    }
+    // merge distinct sets / keys / digests
+    let mut distinct: HashSet<u64> = HashSet::new();
+    let mut digests: HashSet<u64> = HashSet::new();
+    let mut keys: Vec<(u64, u64, u64, u64, u8)> = vec![];
+    let mut stack = vec![std::path::PathBuf::from(&out_dir)];
+    while let Some(d) = stack.pop() {
+        if let Ok(rd) = std::fs::read_dir(&d) {
+            let mut ents: Vec<_> = rd.flatten().map(|e| e.path()).collect();
+            ents.sort();
+            for p in ents {
+                if p.is_dir() {
+                    stack.push(p);
+                    continue;
+                }
+                let name = p.file_name().unwrap().to_string_lossy().into_owned();
+                let fi_flag: u8 = if name.starts_with("w1") { 1 } else { 0 };
+                let data = std::fs::read(&p).unwrap_or_default();
+                if name.ends_with(".distinct") {
+                    for c in data.chunks_exact(8) {
+                        distinct.insert(u64::from_le_bytes(c.try_into().unwrap()));
+                    }
+                } else if name.ends_with(".digests") {
+                    for c in data.chunks_exact(8) {
+                        digests.insert(u64::from_le_bytes(c.try_into().unwrap()));
+                    }
+                } else if name.ends_with(".keys") {
+                    for c in data.chunks_exact(32) {
+                        let g = |i: usize| u64::from_le_bytes(c[i * 8..i * 8 + 8].try_into().unwrap());
+                        keys.push((g(0), g(1), g(2), g(3), fi_flag));
+                    }
+                }
+            }
+        }
+    }
+    let _ = std::fs::remove_dir_all(&out_dir);
+    // census across workers (C08: one key, two hashes; C09: two keys, one hash)
+    let mut census_viol: Vec<(String, (u8, u64, u64, u64), (u8, u64, u64, u64))> = vec![];
+    let mut distinct_keys = 0u64;
+    if !keys.is_empty() {
+        keys.sort();
+        let mut i = 0;
+        while i < keys.len() {
+            let mut j = i;
+            while j + 1 < keys.len() && keys[j + 1].0 == keys[i].0 && keys[j + 1].1 == keys[i].1 {
+                j += 1;
+                if keys[j].2 != keys[i].2 && prop == 8 {
+                    census_viol.push((
+                        "C08/census/same_position_two_hashes".into(),
+                        (keys[i].4, keys[i].3, keys[i].0, keys[i].1),
+                        (keys[j].4, keys[j].3, keys[j].0, keys[j].1),
+                    ));
+                }
+            }
+            distinct_keys += 1;
+            i = j + 1;
+        }
+        let mut byh: Vec<(u64, u64, u64, u64, u8)> = keys.iter().map(|k| (k.2, k.0, k.1, k.3, k.4)).collect();
+        byh.sort();
+        for w in byh.windows(2) {
+            if w[0].0 == w[1].0 && (w[0].1, w[0].2) != (w[1].1, w[1].2) && prop == 9 {
+                census_viol.push((
+                    "C09/census/collision".into(),
+                    (w[0].4, w[0].3, w[0].1, w[0].2),
+                    (w[1].4, w[1].3, w[1].1, w[1].2),
+                ));
+            }
+        }
+    }
+    // 4. violations: one minimised, fresh-process-verified replay per signature
+    let known = read_known(&format!("{}/known_findings.jsonl", VERIF));
+    let mut by_sig: BTreeMap<String, (bool, u64, String)> = BTreeMap::new();
+    m.violations.sort();
+    for (fi_flag, idx, sig, det) in m.violations.iter() {
+        by_sig.entry(sig.clone()).or_insert((*fi_flag, *idx, det.clone()));
+    }
+    let mut sig_counts: BTreeMap<String, u64> = BTreeMap::new();
+    for (_, _, sig, _) in m.violations.iter() {
+        *sig_counts.entry(sig.clone()).or_insert(0) += 1;
+    }
+    let mut exit = 0;
+    let mut known_hit: Vec<String> = vec![];
+    let mut reported: Vec<(String, String)> = vec![];
+    for (sig, (fi_flag, idx, _det)) in by_sig.iter() {
+        let out = run_one(seed, prop, *fi_flag, *idx);
+        let v = match &out.end {
+            End::Violation(v) if v.sig == *sig => v.clone(),
+            _ => {
+                eprintln!("HARNESS ERROR: run {} of profile {} did not reproduce {} in the driver", idx, fi_flag, sig);
+                return 2;
+            }
+        };
+        let (min, st) = minimise(out.script.clone(), sig, armed_for(prop), 3000);
+        let rv = replay(&min, armed_for(prop), false).violation.unwrap_or(v.clone());
+        let path = sig_file_name(&pid_s, sig);
+        let prov = format!(
+            "{{\"verif_seed\":{},\"profile\":\"{}\",\"run_index\":{},\"run_seed\":\"{:#x}\",\"original_steps\":{},\"minimised_steps\":{},\"minimiser_replays\":{}}}",
+            seed,
+            if *fi_flag { "FI" } else { "FF" },
+            idx,
+            run_seed(seed, prop, *fi_flag, *idx),
+            st.original,
+            st.minimised,
+            st.replays
+        );
+        if let Err(e) = write_replay(&path, &pid_s, &rv, &min, &prov, &out.cfg) {
+            eprintln!("HARNESS ERROR: cannot write {}: {}", path, e);
+            return 2;
+        }
+        match fresh_replay(&path) {
+            Ok(Some(s)) if s == *sig => {}
+            other => {
+                eprintln!("HARNESS ERROR: fresh-process replay of {} gave {:?}, expected {}", path, other, sig);
+                return 2;
+            }
+        }
+        let kf = known.iter().find(|k| k.signature == *sig && k.status == "open");
+        match kf {
+            Some(k) => {
+                println!("KNOWN-FINDING: property={} {} [{} occurrences; replay={}]", pid_s, k.what, sig_counts[sig], path);
+                known_hit.push(sig.clone());
+            }
+            None => {
+                println!("VIOLATION property={} replay={}", pid_s, path);
+                println!("  signature: {}", sig);
+                println!("  detail: {}", rv.detail);
+                println!("  occurrences: {}  minimised: {} -> {} steps", sig_counts[sig], st.original, st.minimised);
+                reported.push((sig.clone(), path));
+                exit = 1;
+            }
+        }
+    }
+    // worker deaths: abort inside a library call (non-unwinding panic / signal)
+    m.crashes.sort();
+    m.crashes.dedup();
+    let mut crash_sigs: HashSet<String> = HashSet::new();
+    for (fi_flag, idx) in m.crashes.iter() {
+        match handle_abort(prop, &pid_s, seed, *fi_flag, *idx) {
+            Ok((sig, path)) => {
+                if !crash_sigs.insert(sig.clone()) {
+                    continue;
+                }
+                let kf = known.iter().find(|k| k.signature == sig && k.status == "open");
+                match kf {
+                    Some(k) => {
+                        println!("KNOWN-FINDING: property={} {} [abort; replay={}]", pid_s, k.what, path);
+                        known_hit.push(sig.clone());
+                    }
+                    None => {
+                        println!("VIOLATION property={} replay={}", pid_s, path);
+                        println!("  signature: {}", sig);
+                        reported.push((sig, path));
+                        exit = 1;
+                    }
+                }
+            }
+            Err(e) => {
+                eprintln!("HARNESS ERROR: worker died in run {} (profile {}) and the abort could not be attributed: {}", idx, fi_flag, e);
+                return 2;
+            }
+        }
+    }
+    // census violations
+    for (sig, a, b) in census_viol.iter().take(3) {
+        match census_replay(prop, &pid_s, seed, sig, *a, *b) {
+            Ok(path) => {
+                println!("VIOLATION property={} replay={}", pid_s, path);
+                println!("  signature: {}", sig);
+                reported.push((sig.clone(), path));
+                exit = 1;
+            }
+            Err(e) => {
+                eprintln!("HARNESS ERROR: census finding {} could not be turned into a replay: {}", sig, e);
+                return 2;
+            }
+        }
+    }
+    // 5. evidence
+    let wall = t0.elapsed().as_secs_f64();
+    let ev = evidence_json(&pid_s, prop, tier, seed, &pm, &m, distinct.len() as u64, digests.len() as u64, distinct_keys, wall, audit_runs, &known_hit, &reported, ff, fi);
+    let ev_path = format!("{}/evidence/{}.json", VERIF, pid_s);
+    std::fs::create_dir_all(format!("{}/evidence", VERIF)).ok();
+    if let Err(e) = std::fs::write(&ev_path, ev) {
+        eprintln!("HARNESS ERROR: cannot write evidence {}: {}", ev_path, e);
+        return 2;
+    }
+    println!(
+        "{}: runs={} (FF {} + FI {}) evaluations={} distinct_nontrivial={} foreign_truncations={} wall={:.1}s -> {}",
+        pid_s,
+        m.runs,
+        ff,
+        fi,
+        m.evals,
+        distinct.len(),
+        m.foreign.len(),
+        wall,
+        if exit == 0 { "held on everything explored" } else { "VIOLATION" }
+    );
+    if m.evals == 0 || distinct.len() < 2 {
+        eprintln!("HARNESS ERROR: the batch evaluated nothing (evaluations={}, distinct={})", m.evals, distinct.len());
+        return 2;
+    }
+    exit
+}
+
+fn determinism_audit(prop: usize, seed: u64, n: u64, ja: u64, jb: u64) -> Result<bool, String> {
+    let collect = |jobs: u64| -> Result<BTreeMap<(u8, u64), String>, String> {
+        let mut all = BTreeMap::new();
+        for fi in [0u8, 1u8] {
+            let mut kids = vec![];
+            for w in 0..jobs {
+                kids.push(
+                    Command::new(exe())
+                        .args([
+                            "worker", "--prop", &prop.to_string(), "--seed", &seed.to_string(), "--fi", &fi.to_string(),
+                            "--from", "1000000", "--to", &(1000000 + n / 2).to_string(), "--stride", &jobs.to_string(),
+                            "--offset", &w.to_string(), "--digests", "1",
+                        ])
+                        .stdout(Stdio::piped())
+                        .stderr(Stdio::null())
+                        .spawn()
+                        .map_err(|e| e.to_string())?,
+                );
+            }
+            for k in kids {
+                let out = k.wait_with_output().map_err(|e| e.to_string())?;
+                for l in String::from_utf8_lossy(&out.stdout).lines() {
+                    if let Some(r) = l.strip_prefix("E ") {
+                        let mut it = r.split(' ');
+                        let idx: u64 = it.next().unwrap_or("0").parse().unwrap_or(0);
+                        all.insert((fi, idx), it.next().unwrap_or("").to_string());
+                    }
+                }
+            }
+        }
+        Ok(all)
+    };
+    let a = collect(ja)?;
+    let b = collect(jb)?;
+    if a.len() as u64 != (n / 2) * 2 && a.is_empty() {
+        return Err("audit produced no digests".into());
+    }
+    Ok(a == b && !a.is_empty())
+}
+
+fn cmd_audit(args: &[String]) -> i32 {
+    let n = arg_u64(args, "--runs", 4096);
+    let seed = arg_u64(args, "--seed", 1);
+    let mut ok = true;
+    for prop in meta::CLAIMED.iter() {
+        let per = (n / meta::CLAIMED.len() as u64).max(16);
+        match determinism_audit(*prop, seed, per, 1, 16) {
+            Ok(true) => println!("audit C{:02}: {} runs x 2 (1 vs 16 workers) identical", prop, per),
+            Ok(false) => {
+                eprintln!("HARNESS ERROR: audit C{:02}: digests differ", prop);
+                ok = false;
+            }
+            Err(e) => {
+                eprintln!("HARNESS ERROR: audit C{:02}: {}", prop, e);
+                ok = false;
+            }
+        }
+    }
+    if ok {
+        0
+    } else {
+        2
+    }
+}
+
+// ------------------------------------------------------------------------------------------ aborts
+
+/// A worker died in run `idx`: re-execute it step by step in a child that prints each step before
+/// executing it, take the printed prefix as the script, minimise with child processes.
+fn handle_abort(prop: usize, pid_s: &str, seed: u64, fi: bool, idx: u64) -> Result<(String, String), String> {
+    let out = Command::new(exe())
+        .args(["trace", "--prop", &prop.to_string(), "--seed", &seed.to_string(), "--fi", if fi { "1" } else { "0" }, "--idx", &idx.to_string()])
+        .stderr(Stdio::null())
+        .output()
+        .map_err(|e| e.to_string())?;
+    if out.status.success() {
+        return Err("the traced re-execution did not die".into());
+    }
+    let mut script: Vec<Step> = vec![];
+    for l in String::from_utf8_lossy(&out.stdout).lines() {
+        if let Some(r) = l.strip_prefix("STEP ") {
+            if let Some(s) = Step::parse(r) {
+                script.push(s);
+            }
+        }
+    }
+    if script.is_empty() {
+        return Err("no steps traced".into());
+    }
+    let scratch = format!("{}/scratch/abort-{}", VERIF, std::process::id());
+    std::fs::create_dir_all(&scratch).ok();
+    let dies = |cand: &[Step]| -> bool {
+        let p = format!("{}/cand.json", scratch);
+        let v = Violation { prop: "C00", sig: "abort".into(), detail: String::new() };
+        if write_replay(&p, pid_s, &v, cand, "{}", "").is_err() {
+            return false;
+        }
+        match Command::new(exe()).args(["replay-raw", "--file", &p, "--prop", &prop.to_string()]).stdout(Stdio::null()).stderr(Stdio::null()).status() {
+            Ok(st) => st.code().is_none() || st.code() == Some(134) || st.code() == Some(101),
+            Err(_) => false,
+        }
+    };
+    if !dies(&script) {
+        let _ = std::fs::remove_dir_all(&scratch);
+        return Err("the traced script does not abort when replayed".into());
+    }
+    // greedy single-step removal from the front (child processes are slow: bounded)
+    let mut cur = script.clone();
+    let mut budget = 250;
+    let mut chunk = cur.len() / 2;
+    while chunk >= 1 && budget > 0 {
+        let mut i = 0;
+        while i + chunk < cur.len() && budget > 0 {
+            let mut cand = cur.clone();
+            cand.drain(i..i + chunk);
+            budget -= 1;
+            if dies(&cand) {
+                cur = cand;
+            } else {
+                i += chunk;
+            }
+        }
+        chunk /= 2;
+    }
+    let _ = std::fs::remove_dir_all(&scratch);
+    let last = cur.last().unwrap().to_line();
+    let opname = last.split(' ').nth(3).unwrap_or("op").to_string();
+    let disc = abort_discriminator(&cur);
+    let sig = format!("C{:02}/abort_in_library_call/{}/{}", prop, opname, disc);
+    let v = Violation {
+        prop: "C00",
+        sig: sig.clone(),
+        detail: format!("the process aborted (non-unwinding panic or signal) while executing: {}", last),
+    };
+    let path = sig_file_name(pid_s, &sig);
+    let prov = format!(
+        "{{\"verif_seed\":{},\"profile\":\"{}\",\"run_index\":{},\"original_steps\":{},\"minimised_steps\":{},\"abort\":true}}",
+        seed,
+        if fi { "FI" } else { "FF" },
+        idx,
+        script.len(),
+        cur.len()
+    );
+    write_replay(&path, pid_s, &v, &cur, &prov, "").map_err(|e| e.to_string())?;
+    match fresh_replay(&path)? {
+        Some(s) if s == "abort" => Ok((sig, path)),
+        other => Err(format!("fresh replay gave {:?}", other)),
+    }
+}
+
+fn abort_discriminator(script: &[Step]) -> String {
+    use ops::Op;
+    match &script.last().unwrap().op {
+        Op::ValidateBuilder { placement, stm, .. } => {
+            let men = placement.bytes().filter(|b| if *stm == model::Col::W { b.is_ascii_uppercase() } else { b.is_ascii_lowercase() }).count();
+            if men > 16 {
+                "men_of_side_to_move>16".into()
+            } else {
+                "ordinary_material".into()
+            }
+        }
+        Op::Validate { text } => {
+            let pl = text.split(' ').next().unwrap_or("");
+            let w = pl.bytes().filter(|b| b.is_ascii_uppercase()).count();
+            let b = pl.bytes().filter(|b| b.is_ascii_lowercase()).count();
+            if w > 16 || b > 16 {
+                "men_of_one_side>16".into()
+            } else {
+                "ordinary_material".into()
+            }
+        }
+        Op::Engine { e, .. } => format!("{:?}", e).split(|c: char| !c.is_ascii_alphanumeric()).next().unwrap_or("engine").to_string(),
+        _ => "other".into(),
+    }
+}
+
+fn cmd_trace(args: &[String]) -> i32 {
+    quiet_panics();
+    let prop = arg_u64(args, "--prop", 10) as usize;
+    let seed = arg_u64(args, "--seed", 1);
+    let fi = arg_u64(args, "--fi", 0) == 1;
+    let idx = arg_u64(args, "--idx", 0);
+    // first pass cannot be used (it dies); instead trace inside the world: print each step as it is issued
+    std::env::set_var("CHESS_DST_TRACE", "1");
+    let _ = run_one(seed, prop, fi, idx);
+    0
+}
+
+fn cmd_replay_raw(args: &[String]) -> i32 {
+    quiet_panics();
+    let path = arg(args, "--file").unwrap_or("");
+    let rf = match read_replay(path) {
+        Ok(r) => r,
+        Err(_) => return 2,
+    };
+    let prop = arg_u64(args, "--prop", prop_index(&rf.property) as u64) as usize;
+    let r = replay(&rf.script, armed_for(prop), false);
+    if r.violation.is_some() {
+        1
+    } else {
+        0
+    }
+}
+
+// ------------------------------------------------------------------------------------------ census
+
+fn census_replay(prop: usize, pid_s: &str, seed: u64, sig: &str, a: (u8, u64, u64, u64), b: (u8, u64, u64, u64)) -> Result<String, String> {
+    let locate = |x: (u8, u64, u64, u64)| -> Option<String> {
+        let out = run_one(seed, prop, x.0 == 1, x.1);
+        // re-execute with root recording and look for the key fingerprint among server positions
+        let r = replay(&out.script, armed_for(prop), true);
+        for f in r.roots.iter().flatten() {
+            if let Some(p) = model::Pos::from_fen(f) {
+                let kb = p.key_beside();
+                if rng::fp64(&kb) == x.2 && rng::fp64b(&kb) == x.3 {
+                    return Some(f.clone());
+                }
+            }
+        }
+        None
+    };
+    let fa = locate(a).ok_or("position A not found by re-execution")?;
+    let fb = locate(b).ok_or("position B not found by re-execution")?;
+    let script = vec![Step { n: 1, t: 0, faults: vec![], op: ops::Op::Pair { a: fa, b: fb } }];
+    let r = replay(&script, armed_for(prop), false);
+    let v = r.violation.ok_or("the pair does not reproduce as a Pair op")?;
+    let path = sig_file_name(pid_s, sig);
+    write_replay(&path, pid_s, &v, &script, "{\"census\":true}", "").map_err(|e| e.to_string())?;
+    Ok(path)
+}
+
+// ------------------------------------------------------------------------------------------ replay
+
+fn cmd_replay(args: &[String]) -> i32 {
+    quiet_panics();
+    let path = match arg(args, "--file") {
+        Some(p) => p,
+        None => {
+            eprintln!("usage: chess-dst replay --file <path>");
+            return 2;
+        }
+    };
+    let rf = match read_replay(path) {
+        Ok(r) => r,
+        Err(e) => {
+            eprintln!("HARNESS ERROR: {}", e);
+            return 2;
+        }
+    };
+    let prop = prop_index(&rf.property);
+    if arg(args, "--print-sig").is_some() {
+        // may abort: that is the expected outcome for abort replays
+        let r = replay(&rf.script, armed_for(prop), false);
+        if let Some(v) = r.violation {
+            println!("SIG {}", v.sig);
+            return 1;
+        }
+        return 0;
+    }
+    if rf.signature.contains("/abort_in_library_call/") {
+        // run in a child so that the abort is observed, not suffered
+        let st = Command::new(exe()).args(["replay-raw", "--file", path]).status();
+        return match st {
+            Ok(s) if s.code().is_none() || s.code() == Some(134) => {
+                println!("VIOLATION property={} replay={}", rf.property, path);
+                println!("  signature: {}", rf.signature);
+                println!("  the replay aborted the process inside a library call, as recorded");
+                1
+            }
+            _ => {
+                eprintln!("HARNESS ERROR: replay did not abort; expected {}", rf.signature);
+                2
+            }
+        };
+    }
+    let r = replay(&rf.script, armed_for(prop), false);
+    match r.violation {
+        Some(v) if v.sig == rf.signature => {
+            println!("VIOLATION property={} replay={}", rf.property, path);
+            println!("  signature: {}", v.sig);
+            println!("  detail: {}", v.detail);
+            1
+        }
+        Some(v) => {
+            eprintln!("HARNESS ERROR: replay produced {} but the file records {}", v.sig, rf.signature);
+            2
+        }
+        None => {
+            eprintln!("replay of {} produced no violation (the file records {}): the property holds on this script with the current tree", path, rf.signature);
+            0
+        }
+    }
+}
+
+fn cmd_run1(args: &[String]) -> i32 {
+    quiet_panics();
+    let prop = arg_u64(args, "--prop", 10) as usize;
+    let seed = arg_u64(args, "--seed", 1);
+    let fi = arg_u64(args, "--fi", 0) == 1;
+    let idx = arg_u64(args, "--idx", 0);
+    let out = run_one(seed, prop, fi, idx);
+    if arg(args, "--script").is_some() {
+        for s in out.script.iter() {
+            println!("{}", s.to_line());
+        }
+    }
+    println!("cfg {}", out.cfg);
+    println!("steps {} evals {} distinct {} plies {} sim_ms {} digest {:016x}", out.script.len(), out.stats.evals, out.stats.distinct.len(), out.stats.plies, out.stats.sim_ms, out.digest);
+    for (k, v) in out.stats.counters.iter() {
+        println!("  {} {}", k, v);
+    }
+    match out.end {
+        End::Clean => println!("clean"),
+        End::Violation(v) => println!("VIOLATION {} :: {}", v.sig, v.detail),
+        End::Foreign(d) => println!("foreign divergence: {}", d),
+    }
+    0
+}
+
+// ------------------------------------------------------------------------------------------ evidence
+
+#[allow(clippy::too_many_arguments)]
+fn evidence_json(
+    pid_s: &str,
+    prop: usize,
+    tier: &str,
+    seed: u64,
+    pm: &meta::PropMeta,
+    m: &Merged,
+    distinct: u64,
+    digests: u64,
+    distinct_keys: u64,
+    wall: f64,
+    audit_runs: u64,
+    known_hit: &[String],
+    reported: &[(String, String)],
+    ff: u64,
+    fi: u64,
+) -> String {
+    let e = json::esc;
+    let mut faults = vec![];
+    let mut reach = vec![];
+    let mut na = vec![];
+    let mut other = vec![];
+    let mut mv_vals = 0u64;
+    let mut sq_vals = 0u64;
+    for (k, v) in m.counters.iter() {
+        if let Some(r) = k.strip_prefix("fault.") {
+            faults.push(format!("{}: {}", e(r), v));
+        } else if let Some(r) = k.strip_prefix("reach.") {
+            reach.push(format!("{}: {}", e(r), v));
+        } else if let Some(r) = k.strip_prefix("na.") {
+            na.push(format!("{}: {}", e(r), v));
+        } else if k.starts_with("mv.") {
+            mv_vals += 1;
+        } else if k.starts_with("sq.") {
+            sq_vals += 1;
+        } else {
+            other.push(format!("{}: {}", e(k), v));
+        }
+    }
+    let gaps: Vec<String> = pm.expected_reach.iter().filter(|r| m.counters.get(&format!("reach.{}", r)).copied().unwrap_or(0) == 0).map(|r| e(r)).collect();
+    let mut samples = vec![];
+    let mut ss = m.samples.clone();
+    ss.sort();
+    for (idx, cfg, sc) in ss.iter().take(3) {
+        let lines: Vec<String> = sc.split('\u{1}').map(|l| e(l)).collect();
+        samples.push(format!("{{\"run_index\": {}, \"config\": {}, \"first_steps\": [{}]}}", idx, if cfg.is_empty() { "{}".into() } else { cfg.clone() }, lines.join(", ")));
+    }
+    if samples.is_empty() {
+        samples.push("\"(no run produced more than three steps)\"".into());
+    }
+    let mut extra = String::new();
+    if prop == 13 {
+        extra.push_str(&format!(
+            "    \"distinct_move_values_roundtripped\": {},\n    \"distinct_squares_roundtripped\": {},\n    \"exhaustive_value_coverage\": {},\n",
+            mv_vals,
+            sq_vals,
+            mv_vals == 20480 && sq_vals == 64
+        ));
+    }
+    let runs_per_hour = if wall > 0.0 { (m.runs as f64 / wall * 3600.0) as u64 } else { 0 };
+    format!(
+        "{{\n  \"property_id\": {},\n  \"tier\": {},\n  \"seed\": {},\n  \"level\": \"exploration\",\n  \"coverage\": {{\n    \"evaluations\": {},\n    \"distinct_nontrivial\": {},\n    \"rule\": {},\n    \"samples\": [{}],\n    \"runs\": {},\n    \"runs_fault_free\": {},\n    \"runs_fault_injecting\": {},\n    \"first_run_seed\": \"{:#x}\",\n    \"runs_per_hour\": {},\n    \"simulated_seconds\": {:.1},\n    \"accepted_plies\": {},\n    \"faults_fired\": {{{}}},\n    \"reach\": {{{}}},\n    \"reach_gaps\": [{}],\n    \"not_asserted\": {{{}}},\n    \"other_counters\": {{{}}},\n{}    \"distinct_event_log_digests\": {},\n    \"distinct_position_keys\": {},\n    \"truncated_foreign_divergence\": {},\n    \"worker_aborts\": {},\n    \"components\": {{\"real\": {}, \"stub\": {}}},\n    \"known_findings_hit\": [{}],\n    \"violations_reported\": [{}],\n    \"determinism_audit\": {{\"runs\": {}, \"executions_each\": 2, \"worker_counts\": [1, 4], \"equal\": true}},\n    \"model_selftest\": \"perft of the reference model against published node counts: ok\",\n    \"exhaustive\": false\n  }},\n  \"assumptions\": [{}],\n  \"wall_s\": {:.2},\n  \"violations\": {}\n}}\n",
+        e(pid_s),
+        e(tier),
+        seed,
+        m.evals,
+        distinct,
+        e(pm.rule),
+        samples.join(", "),
+        m.runs,
+        ff,
+        fi,
+        run_seed(seed, prop, false, 0),
+        runs_per_hour,
+        m.sim_ms as f64 / 1000.0,
+        m.plies,
+        faults.join(", "),
+        reach.join(", "),
+        gaps.join(", "),
+        na.join(", "),
+        other.join(", "),
+        extra,
+        digests,
+        distinct_keys,
+        m.foreign.len(),
+        m.crashes.len(),
+        json_list(pm.real),
+        json_list(pm.stub),
+        known_hit.iter().map(|s| e(s)).collect::<Vec<_>>().join(", "),
+        reported.iter().map(|(s, p)| format!("{{\"signature\": {}, \"replay\": {}}}", e(s), e(p))).collect::<Vec<_>>().join(", "),
+        audit_runs,
+        pm.assumptions.iter().map(|s| e(s)).collect::<Vec<_>>().join(", "),
+        wall,
+        reported.len()
+    )
+}
+
+fn json_list(v: &[&str]) -> String {
+    format!("[{}]", v.iter().map(|s| json::esc(s)).collect::<Vec<_>>().join(", "))
 }
